@@ -19,7 +19,7 @@ import (
 
 func c08Gen(t *rapid.T, r *h.Rec) specCase {
 	av, onEx, onCl := avoidOpts(r)
-	return specCase{Spec: synth.GenSQL(t, &synth.SQLOpts{Avoid: av, OnExclude: onEx, OnClass: onCl, MaxTables: 4, SelfFK: true})}
+	return specCase{Spec: synth.GenSQL(t, &synth.SQLOpts{Avoid: av, OnExclude: onEx, OnClass: onCl, MaxTables: 4, SelfFK: true, ForeignFileTables: true})}
 }
 
 func sqlOutput(ls *loadedSpec) (string, outcome) {
